@@ -485,3 +485,5 @@ func writeJSON(path string, v interface{}) error {
 	}
 	return os.WriteFile(path, data, 0o644)
 }
+
+func newRng(seed int64) *rand.Rand { return rand.New(rand.NewSource(seed)) }
